@@ -29,7 +29,11 @@ def gen(rng, tier):
             # freeze a kernel thread right after a store for a long stretch
             env = {"VR_SEED": env["VR_SEED"], "VR_SCHED": "freeze", "VR_BUDGET": 60000,
                    "VR_FREEZE_DEN": rng.choice([4, 6, 10, 15]), "VR_FREEZE_LEN": rng.choice([80, 300, 1000])}
-        cases.append({"args": [k, gen_script(rng, count, rounds)], "env": env})
+        args = [k, gen_script(rng, count, rounds)]
+        if i % 4 == 1:
+            # a long-lived barrier: the arrival counter crosses 2^32 during the run
+            args.append((1 << 32) - rng.randrange(0, 2 * count + 1))
+        cases.append({"args": args, "env": env})
     return cases
 
 
